@@ -2,6 +2,7 @@
 implementation runner, emitter.  The renderer (tree -> tokens -> text) is the textual twin of coq/Expr/Grammar.v
 (level / wrap / parenthesize / render); the token list it produced is compared with render_min inside Coq for every case."""
 import os
+import re
 import gallina as G
 from props import c12 as V
 
@@ -446,6 +447,51 @@ def L(kind, text):
     return lit(kind, text)
 
 
+# ---- literal shapes: the regular expressions of the unchanged grammar (the Specification), used only to choose the
+# literal kind a text is offered as; texts that are no literal at all are offered as LInt and must be rejected
+_DIG = r"[0-9](?:_?[0-9])*"
+_POINT = r"(?:(?:%s)?\.%s|%s\.)" % (_DIG, _DIG, _DIG)
+RE_REAL = re.compile(r"(?:(?:%s|%s)[eE][+-]?%s|%s)" % (_POINT, _DIG, _DIG, _POINT))
+RE_INT = re.compile(r"0[bB](?:_?[01])+|0[oO](?:_?[0-7])+|0[xX](?:_?[0-9a-fA-F])+|(?:0(?:_?0)*)+|[1-9](?:_?[0-9])*")
+
+
+def literal_kind(text):
+    if RE_REAL.fullmatch(text):
+        return "real"
+    return "int"  # well-formed integer, or no literal at all (then the model rejects it: lit_wf = false)
+
+
+def literal_shapes(rng, n_random):
+    """Well-formed and malformed numeric literal texts; all start with a digit, '.' or '_' and contain no operator
+    except a sign directly after an exponent mark, so that a text that is not one literal cannot be another valid
+    expression (a leading '_' makes it an undefined identifier)."""
+    out = []
+    for p in ("0x", "0X", "0o", "0O", "0b", "0B"):
+        for tail in ("", "_", "__", "___", "_1", "1_", "1__0", "_1__0_", "1_0", "_1_0", "1", "10", "2", "8", "g", "_g", "1.", ".1", "1e1", "_1_", "1_1_1", "__1"):
+            out.append(p + tail)
+    out += ["0", "00", "0_0", "0__0", "0_", "_0", "01", "0_1", "007", "1_", "_1", "1__0", "1_0", "1_0_", "1e", "1e+", "1e-", "1e+_1", "1e1_", "1e_1", "1_e1", "1e1", "1E1",
+            "1e+1", "1e-1", "1e05", "0e0", "1e1e1", ".5", "5.", ".", "..5", "5..", "._5", "5._", "5_.", "_.5", ".5_", "1.5e", "1.5e+", ".e5", "1.e5", "1e5.", "1e5.0", "1.2.3",
+            "0x.5", "0x1.", "0x1e5", "0b1e1", "00.5", "0_0.0_0", "1__0.5", "1.5", "1_0.2_5", "1.5_", "1._5", "_", "__", "_1_", "9_9", "9_", "0.0", "0.", ".0", "0e", "1.e", ".5e1",
+            ".5e", "5.e1", "5.e+", "1_0e1_0", "1e1__0", "0b", "0o", "0x"]
+    alpha = "0179_.eExXbBoOaf"
+    for _ in range(n_random):
+        ln = rng.choice([1, 2, 3, 3, 4, 5, 6, 8])
+        t = rng.choice("0123456789.") + "".join(rng.choice(alpha) for _ in range(ln - 1))
+        if rng.random() < 0.2 and ("e" in t or "E" in t):
+            i = max(t.rfind("e"), t.rfind("E"))
+            t = t[:i + 1] + rng.choice("+-") + t[i + 1:]
+        out.append(t)
+    seen, uniq = set(), []
+    for t in out:
+        if t not in seen and not t[0].isalpha():
+            seen.add(t)
+            uniq.append(t)
+    return uniq
+
+
+LITERAL_CHANS = [["print"], ["assert"], ["const", ["float", 64, 0]], ["const", ["uint", 8, 0]], ["cap", 0], ["cap", 1], ["cap", 2], ["extent"]]
+
+
 def targeted():
     """Hand-written probes: precedence of every adjacent pair of levels, the complete operand-kind table, literal forms."""
     out = []
@@ -598,6 +644,13 @@ def generate(rng, tier):
             cases.append(make_case(rng, ["bin", "+", ["id", name], lit("int", "1")], ["print"], env_idx))
             streams.append("targeted")
             cases.append(make_case(rng, ["id", name], ["print"], env_idx))
+            streams.append("targeted")
+    # literal shapes, well-formed and malformed, through every channel
+    shapes = literal_shapes(rng, 150 if tier == "quick" else 3000)
+    for k, t in enumerate(shapes):
+        chans = LITERAL_CHANS if k < 60 or tier != "quick" else [["print"], rng.choice(LITERAL_CHANS[1:])]
+        for ch in chans:
+            cases.append(make_case(rng, lit(literal_kind(t), t), ch, [], gaps=[""]))
             streams.append("targeted")
     n = 4200 if tier == "quick" else 60000
     maxd = [1, 2, 2, 3, 3, 4, 4, 5] if tier == "quick" else [2, 3, 4, 4, 5, 5, 6, 7]
@@ -794,6 +847,8 @@ def nontrivial(case, obs):
 
 def describe(case, obs):
     keys = ["chan:" + case["chan"][0], "ops=%d" % min(count_ops(case["e"]), 12)]
+    if case["e"][0] == "lit" and case["e"][1] in ("int", "real"):
+        keys.append("literal:" + ("well-formed" if RE_REAL.fullmatch(case["e"][2]) or RE_INT.fullmatch(case["e"][2]) else "malformed"))
     keys.append("impl:" + ("rejected" if "rej" in obs else "value"))
     seen = set()
 
